@@ -715,3 +715,531 @@ func c13PreparedInTheSameAttempt(c *Check, rule string) {
 		c.Fail(rule, "sites", token.NoPos, "anchor unresolved: no PrepareConn / CheckConn call on the policies in target.remote")
 	}
 }
+
+// ---- C19.R19: a connection that was closed or has failed is not "usable".
+// Both guards of the pool – remoteDelivery.Close decides whether a connection goes back, pool.Get whether one comes out –
+// ask the connection itself (mxConn.Usable). Everything C19 says about closed connections rests on that answer: when the
+// client is gone (closed), the connection object is gone, or a transaction on it failed, no path through Usable ends in
+// a return other than the constant false. (From the mutant run of round 11: the whole guard of Usable could be negated
+// or dropped without any rule noticing.)
+func c19UsableRefusesClosed(c *Check, rule string) {
+	c.Rule(rule, "mxConn.Usable: in each of the worlds 'the client is nil' (closed), 'the connection object is nil', 'a transaction on it failed' every return is the constant false – the two guards of the pool (Close before Return, Get before hand-out) rest on this answer", 3)
+	r := c.need(rule, "internal/target/remote", "mxConn", "Usable")
+	if r == nil {
+		return
+	}
+	info := r.Info
+	type world struct {
+		name  string
+		match func(atom ast.Expr) (bool, bool)
+	}
+	isNilCmp := func(atom ast.Expr, x func(ast.Expr) bool) (bool, bool) {
+		be, ok := ast.Unparen(atom).(*ast.BinaryExpr)
+		if !ok || (be.Op != token.EQL && be.Op != token.NEQ) || !isNilIdent(info, be.Y) || !x(be.X) {
+			return false, false
+		}
+		return be.Op == token.EQL, true
+	}
+	isClientCall := func(e ast.Expr) bool {
+		call, ok := ast.Unparen(e).(*ast.CallExpr)
+		return ok && methodName(call) == "Client" && len(call.Args) == 0
+	}
+	isConnField := func(e ast.Expr) bool {
+		fv := fieldOf(info, e)
+		if fv == nil {
+			return false
+		}
+		nt, ok := derefNamed(fv.Type())
+		return ok && nt.Obj().Name() == "C" && nt.Obj().Pkg() != nil && strings.HasSuffix(nt.Obj().Pkg().Path(), "/internal/smtpconn")
+	}
+	worlds := []world{
+		{"client-nil", func(a ast.Expr) (bool, bool) { return isNilCmp(a, isClientCall) }},
+		{"conn-nil", func(a ast.Expr) (bool, bool) { return isNilCmp(a, isConnField) }},
+		{"errored", func(a ast.Expr) (bool, bool) {
+			if fv := fieldOf(info, ast.Unparen(a)); fv != nil && fv.Name() == "errored" {
+				return true, true
+			}
+			return false, false
+		}},
+	}
+	notFalse := func(pt Pt) bool {
+		k, ret := r.F.Exit(pt)
+		if k != ExitReturn || ret == nil || len(ret.Results) != 1 {
+			return k != NotExit && k != ExitReturn
+		}
+		tv, has := info.Types[ret.Results[0]]
+		return !(has && tv.Value != nil && tv.Value.String() == "false")
+	}
+	for _, w := range worlds {
+		seen := false
+		ast.Inspect(r.FI.Decl.Body, func(n ast.Node) bool {
+			if e, ok := n.(ast.Expr); ok {
+				if _, m := w.match(e); m {
+					seen = true
+				}
+			}
+			return true
+		})
+		if !seen {
+			c.Hold(rule, "Usable:"+w.name, r.FI.Decl.Pos(), false, "Usable never looks at '"+w.name+"': a connection in that state is reported usable, goes back to the pool and is handed to the next delivery")
+			continue
+		}
+		path, found := r.F.Reach(Query{From: r.Entry(), Inclusive: true, Target: notFalse, AvoidEdge: r.F.World(w.match)})
+		c.Hold(rule, "Usable:"+w.name, r.FI.Decl.Pos(), !found, "in the world '"+w.name+"' Usable can answer something other than false ("+r.F.Describe(path)+"): a closed or failed connection passes both guards of the pool – Close returns it, Get hands it out")
+	}
+}
+
+// ---- E15: no in-place filter of storage the function does not own.
+// `res := fields[:0]; for … { res = append(res, x) }` writes the survivors into the backing array of `fields`. That is
+// the allocation-free filter idiom and correct when `fields` was allocated by the function itself. When `fields` is a
+// parameter, a struct field or a package-level list, the array can belong to somebody else: modify.dkim's
+// `m.signHeader` IS the package-level default list when `sign_fields` is not configured (C08T: an instance with a
+// custom `oversign_fields` squeezed `List-Unsubscribe` out of the default list of every other instance, which then
+// stopped signing that field). Decided per function body: the operand of a zero-length re-slice that is appended to
+// is a local variable whose every definition in the body is a fresh allocation (make, a composite literal, append onto
+// nil, a conversion / strings.Fields-like call result).
+func inPlaceFilterSeen(c *Check, fis []*FuncInfo) {
+	c.Rule("E15", "a zero-length re-slice `x[:0]` that is appended to (the in-place filter idiom) has an operand the function allocated itself – never a parameter, a struct field or a package-level list, whose backing array other holders keep reading", 0)
+	defer func() { c.HoldConst("E15", "functions-examined", token.NoPos, true, "") }()
+	seen := map[*types.Func]bool{}
+	for _, fi := range fis {
+		if fi == nil || seen[fi.Obj] || fi.Decl.Body == nil {
+			continue
+		}
+		seen[fi.Obj] = true
+		info := fi.Info()
+		n := 0
+		funcBodiesAST(fi, func(name string, body *ast.BlockStmt) {
+			inspectNoLit(body, func(x ast.Node) bool {
+				sl, ok := x.(*ast.SliceExpr)
+				if !ok || sl.Low != nil && !isConstZero(info, sl.Low) || sl.High == nil || !isConstZero(info, sl.High) {
+					return true
+				}
+				t := info.TypeOf(sl.X)
+				if t == nil {
+					return true
+				}
+				if _, isSlice := t.Underlying().(*types.Slice); !isSlice {
+					return true
+				}
+				n++
+				key := name + ":reslice" + itoa(n)
+				owner := ""
+				switch o := objOf(info, sl.X).(type) {
+				case *types.Var:
+					switch {
+					case o.IsField():
+						owner = "the struct field " + o.Name()
+					case o.Pkg() != nil && o.Parent() == o.Pkg().Scope():
+						owner = "the package-level list " + o.Name()
+					default:
+						// a local: every definition in this body is a fresh allocation?
+						isParam := true
+						ast.Inspect(body, func(y ast.Node) bool {
+							if id, isID := y.(*ast.Ident); isID && info.Defs[id] == o {
+								isParam = false
+							}
+							return true
+						})
+						if isParam {
+							owner = "the parameter " + o.Name()
+							break
+						}
+						for _, d := range defsOfObj(info, body, o) {
+							if !freshSliceExpr(info, d) {
+								owner = "the variable " + o.Name() + " (defined as " + exprStr(d) + ")"
+							}
+						}
+					}
+				default:
+					if fv := fieldOf(info, sl.X); fv != nil {
+						owner = "the struct field " + fv.Name()
+					} else {
+						owner = exprStr(sl.X)
+					}
+				}
+				c.Hold("E15", key, sl.Pos(), owner == "", "the in-place filter `"+exprStr(sl)+"` writes into the backing array of "+owner+", which this function did not allocate: whoever else holds that array (the package-level default a configuration field was initialised from, the caller's list, a table's own storage) sees its elements overwritten – a later message, another module instance or the next look-up works on the filtered list")
+				return true
+			})
+		})
+	}
+}
+
+func isConstZero(info *types.Info, e ast.Expr) bool {
+	tv, ok := info.Types[e]
+	if !ok || tv.Value == nil {
+		return false
+	}
+	v, isInt := constInt(tv)
+	return isInt && v == 0
+}
+
+// funcBodiesAST: the declared body and every function literal in it, without building flow graphs.
+func funcBodiesAST(fi *FuncInfo, f func(name string, body *ast.BlockStmt)) {
+	f(fi.Name(), fi.Decl.Body)
+	k := 0
+	ast.Inspect(fi.Decl.Body, func(x ast.Node) bool {
+		if lit, ok := x.(*ast.FuncLit); ok {
+			k++
+			f(fi.Name()+"$"+itoa(k), lit.Body)
+		}
+		return true
+	})
+}
+
+// defsOfObj: the right-hand sides of every definition / assignment of o in body (nil entries for definitions without
+// a value, range variables and multi-value assignments are reported as the statement's first expression).
+func defsOfObj(info *types.Info, body ast.Node, o types.Object) []ast.Expr {
+	var out []ast.Expr
+	ast.Inspect(body, func(n ast.Node) bool {
+		switch s := n.(type) {
+		case *ast.AssignStmt:
+			for i, l := range s.Lhs {
+				if objOf(info, l) != o {
+					continue
+				}
+				if len(s.Rhs) == len(s.Lhs) {
+					out = append(out, s.Rhs[i])
+				} else if len(s.Rhs) == 1 {
+					out = append(out, s.Rhs[0])
+				}
+			}
+		case *ast.ValueSpec:
+			for i, nm := range s.Names {
+				if info.Defs[nm] != o {
+					continue
+				}
+				if i < len(s.Values) {
+					out = append(out, s.Values[i])
+				}
+			}
+		case *ast.RangeStmt:
+			if (s.Key != nil && objOf(info, s.Key) == o) || (s.Value != nil && objOf(info, s.Value) == o) {
+				out = append(out, s.X)
+			}
+		}
+		return true
+	})
+	return out
+}
+
+// freshSliceExpr: the expression allocates a new backing array (or is nil).
+func freshSliceExpr(info *types.Info, e ast.Expr) bool {
+	e = ast.Unparen(e)
+	if isNilIdent(info, e) {
+		return true
+	}
+	switch x := e.(type) {
+	case *ast.CompositeLit:
+		return true
+	case *ast.CallExpr:
+		if id, ok := ast.Unparen(x.Fun).(*ast.Ident); ok {
+			if _, isB := info.Uses[id].(*types.Builtin); isB {
+				switch id.Name {
+				case "make":
+					return true
+				case "append":
+					// append onto nil / onto a fresh value
+					return len(x.Args) > 0 && freshSliceExpr(info, x.Args[0])
+				}
+				return false
+			}
+		}
+		if tv, ok := info.Types[x.Fun]; ok && tv.IsType() {
+			// a conversion: []T(nil) is fresh, []byte(s) allocates
+			return len(x.Args) == 1 && (isNilIdent(info, x.Args[0]) || isStringType(info.TypeOf(x.Args[0])))
+		}
+		// results of the standard library's splitting / copying helpers are the caller's own
+		if fn := callee(info, x); fn != nil && fn.Pkg() != nil {
+			switch fn.Pkg().Path() {
+			case "strings", "bytes", "slices", "sort", "regexp":
+				return fn.Name() != "Compact" && fn.Name() != "Delete"
+			}
+		}
+	}
+	return false
+}
+
+// ---- C04.R15 (= C16.R15): what the error says about itself wins over the converter's defaults.
+// Endpoint.wrapErr and queue.toSMTPErr start from a default pair chosen by the temporariness of the error and then
+// copy the code, the enhanced code and the text the error carries (`smtp_code`, `smtp_enchcode`, `smtp_msg`, a typed
+// SMTP error). The order is the specification: a default stored AFTER the copy (C04T: `if IsTemporary(err) { res.Code =
+// 451 }` moved below, "a temporary failure is never reported as a permanent one") replaces the configured reply of a
+// `reject 450 4.2.1 "…"` block by 451. Decided on both converters: no store of a constant into the reply's basic code
+// is reachable from a store of the code the error carries.
+func c04FieldsWinOverDefaults(c *Check, rule string) {
+	c.Rule(rule, "wrapErr / toSMTPErr: no constant is stored into the reply's basic code after the code the error carries (smtp_code field, typed SMTP error) was copied into it – a block's configured `reject 450 …` is answered with 450, not with the converter's default", 2)
+	for _, site := range [][3]string{{smtpEndpRel, "Endpoint", "wrapErr"}, {queueRel, "", "toSMTPErr"}} {
+		r := c.need(rule, site[0], site[1], site[2])
+		if r == nil {
+			continue
+		}
+		info := r.Info
+		isCodeStore := func(pt Pt, wantConst bool) bool {
+			as, ok := pt.Node().(*ast.AssignStmt)
+			if !ok || len(as.Lhs) != len(as.Rhs) {
+				return false
+			}
+			for i, l := range as.Lhs {
+				sel, isSel := ast.Unparen(l).(*ast.SelectorExpr)
+				if !isSel || sel.Sel.Name != "Code" || fieldOf(info, sel) == nil {
+					continue
+				}
+				tv, has := info.Types[as.Rhs[i]]
+				isConst := has && tv.Value != nil
+				if isConst == wantConst {
+					return true
+				}
+			}
+			return false
+		}
+		var carried []Pt
+		for _, pt := range r.F.Points() {
+			if isCodeStore(pt, false) {
+				carried = append(carried, pt)
+			}
+		}
+		if len(carried) == 0 {
+			c.Fail(rule, site[2]+":carried", r.FI.Decl.Pos(), "undecided: the converter never copies the code the error carries")
+			continue
+		}
+		path, found := r.F.Reach(Query{From: carried, Target: func(q Pt) bool { return isCodeStore(q, true) }})
+		c.Hold(rule, site[2]+":defaults-first", r.FI.Decl.Pos(), !found, "a constant is stored into the reply's basic code after the code the error carries was copied ("+r.F.Describe(path)+"): the reply a pipeline block was configured with (`reject 450 4.2.1 \"…\"`, `reject 452 …`) reaches the client as the converter's default 451 with the configured enhanced code and text")
+	}
+}
+
+// ---- C17.R13: the address functions have no memory.
+// Quoting, splitting, normalising and comparing are functions of their arguments. A package-level buffer or pool that
+// a call reads and leaves behind changed (C17S: QuoteMbox took a *bytes.Buffer from a sync.Pool and reset it on one of
+// its two exits only – after QuoteMbox("alice") the next address that needs quoting came out as "alicea b") makes the
+// result depend on the calls before: quoting no longer round-trips, and two goroutines see each other's text. Decided
+// for framework/address and the normalisation file of framework/dns: a function refers to a package-level variable only
+// when that variable is never assigned, has no element stores, and is of a type without mutable operations (an error
+// value, a table in a map / slice literal, a compiled profile).
+func c17AddressFunctionsStateless(c *Check, rule string) {
+	c.Rule(rule, "framework/address and framework/dns (normalisation): functions refer to package-level variables only as constants – never to a pool, buffer or builder, never to a variable that some function assigns or stores into (the result of quoting / splitting / normalising depends on the argument alone)", 4)
+	p := c.P
+	n := 0
+	for _, rel := range []string{"framework/address", "framework/dns"} {
+		pk := p.Pkg(rel)
+		if pk == nil {
+			c.Fail(rule, rel, token.NoPos, "anchor unresolved: package not loaded")
+			continue
+		}
+		info := pk.TypesInfo
+		// package-level variables that are written somewhere in the package
+		written := map[types.Object]string{}
+		p.AllFuncs([]*packagesPkg{pk}, func(fi *FuncInfo) {
+			if fi.Decl.Body == nil || strings.HasSuffix(p.Fset.Position(fi.Decl.Pos()).Filename, "_test.go") {
+				return
+			}
+			ast.Inspect(fi.Decl.Body, func(x ast.Node) bool {
+				mark := func(l ast.Expr) {
+					l = ast.Unparen(l)
+					if ix, ok := l.(*ast.IndexExpr); ok {
+						l = ast.Unparen(ix.X)
+					}
+					if v, ok := objOf(info, l).(*types.Var); ok && v.Pkg() != nil && v.Parent() == v.Pkg().Scope() {
+						written[v] = fi.Name()
+					}
+				}
+				switch s := x.(type) {
+				case *ast.AssignStmt:
+					for _, l := range s.Lhs {
+						mark(l)
+					}
+				case *ast.IncDecStmt:
+					mark(s.X)
+				}
+				return true
+			})
+		})
+		mutableType := func(t types.Type) string {
+			if pt, ok := t.Underlying().(*types.Pointer); ok {
+				t = pt.Elem()
+			}
+			if nt, ok := types.Unalias(t).(*types.Named); ok && nt.Obj().Pkg() != nil {
+				q := nt.Obj().Pkg().Path() + "." + nt.Obj().Name()
+				switch q {
+				case "sync.Pool", "bytes.Buffer", "strings.Builder", "sync.Map", "bufio.Reader", "bufio.Writer":
+					return q
+				}
+			}
+			return ""
+		}
+		p.AllFuncs([]*packagesPkg{pk}, func(fi *FuncInfo) {
+			fname := p.Fset.Position(fi.Decl.Pos()).Filename
+			if fi.Decl.Body == nil || strings.HasSuffix(fname, "_test.go") {
+				return
+			}
+			if rel == "framework/dns" && !strings.HasSuffix(fname, "norm.go") {
+				return // the resolver part of the package has configuration (override.go) and connections
+			}
+			n++
+			c.SawFunc(fi.Name())
+			msg := ""
+			ast.Inspect(fi.Decl.Body, func(x ast.Node) bool {
+				id, ok := x.(*ast.Ident)
+				if !ok {
+					return true
+				}
+				v, isVar := info.Uses[id].(*types.Var)
+				if !isVar || v.IsField() || v.Pkg() == nil || v.Parent() != v.Pkg().Scope() || !strings.HasPrefix(v.Pkg().Path(), modPath) {
+					return true
+				}
+				if mt := mutableType(v.Type()); mt != "" {
+					msg = "the function uses the package-level " + mt + " " + v.Name() + " (line " + itoa(p0(p, id.Pos())) + "): what one call leaves in it is part of the next call's result – quoting / normalising an address no longer depends on the address alone (and concurrent calls share the state)"
+				} else if w, isW := written[v]; isW {
+					msg = "the function reads the package-level variable " + v.Name() + " (line " + itoa(p0(p, id.Pos())) + "), which " + w + " assigns: the result depends on the calls made before"
+				}
+				return true
+			})
+			c.Hold(rule, fi.Name(), fi.Decl.Pos(), msg == "", msg)
+		})
+	}
+	if n == 0 {
+		c.Fail(rule, "functions", token.NoPos, "anchor unresolved")
+	}
+}
+
+// ---- E16: a timer that drives a loop is re-armed on every way round.
+// A time.Ticker fires for ever, a time.Timer once. A loop that waits on `timer.C` and comes round again without
+// `timer.Reset(…)` (or a new timer) waits for ever from the second iteration on: pool.cleanUpTick rewritten from a
+// ticker to a timer (C19T, "the interval is counted from the end of the previous sweep") swept once, one minute after
+// start-up – idle connections of destinations nobody writes to again were never closed while the process lived.
+// Decided per function body: from the branch that a receive from a *time.Timer's channel selects (or from the receive
+// itself when it stands alone) no path leads back to that receive without a Reset of the timer or an assignment to it.
+func timerRearmedSeen(c *Check, fis []*FuncInfo) {
+	c.Rule("E16", "a receive from the channel of a *time.Timer that a loop comes back to is preceded, on every way round, by a Reset of that timer or by a new timer (a one-shot timer that is waited on again never fires: a periodic job runs once)", 0)
+	defer func() { c.HoldConst("E16", "functions-examined", token.NoPos, true, "") }()
+	seen := map[*types.Func]bool{}
+	for _, fi := range fis {
+		if fi == nil || seen[fi.Obj] || fi.Decl.Body == nil {
+			continue
+		}
+		seen[fi.Obj] = true
+		info := fi.Info()
+		timerOf := func(e ast.Expr) types.Object {
+			u, ok := ast.Unparen(e).(*ast.UnaryExpr)
+			if !ok || u.Op != token.ARROW {
+				return nil
+			}
+			sel, ok := ast.Unparen(u.X).(*ast.SelectorExpr)
+			if !ok || sel.Sel.Name != "C" {
+				return nil
+			}
+			t := info.TypeOf(sel.X)
+			if t == nil {
+				return nil
+			}
+			nt, isNamed := derefNamed(t)
+			if !isNamed || nt.Obj().Pkg() == nil || nt.Obj().Pkg().Path() != "time" || nt.Obj().Name() != "Timer" {
+				return nil
+			}
+			return objOf(info, sel.X)
+		}
+		// pre-filter
+		has := false
+		ast.Inspect(fi.Decl.Body, func(x ast.Node) bool {
+			if e, ok := x.(ast.Expr); ok && timerOf(e) != nil {
+				has = true
+			}
+			return !has
+		})
+		if !has {
+			continue
+		}
+		funcBodies(c.P, fi, func(name string, body *ast.BlockStmt, fl *Flow) {
+			n := 0
+			var recvs []struct {
+				tm   types.Object
+				expr ast.Expr
+				cc   *ast.CommClause
+			}
+			var stack []ast.Node
+			ast.Inspect(body, func(x ast.Node) bool {
+				if x == nil {
+					stack = stack[:len(stack)-1]
+					return true
+				}
+				stack = append(stack, x)
+				if _, isLit := x.(*ast.FuncLit); isLit {
+					stack = stack[:len(stack)-1]
+					return false
+				}
+				e, ok := x.(ast.Expr)
+				if !ok {
+					return true
+				}
+				tm := timerOf(e)
+				if tm == nil {
+					return true
+				}
+				var cc *ast.CommClause
+				for i := len(stack) - 2; i >= 0; i-- {
+					if c2, isCC := stack[i].(*ast.CommClause); isCC {
+						if c2.Comm != nil && within(c2.Comm, e) {
+							cc = c2
+						}
+						break
+					}
+					if _, isStmt := stack[i].(ast.Stmt); isStmt {
+						if _, isExprStmt := stack[i].(*ast.ExprStmt); !isExprStmt {
+							if _, isAs := stack[i].(*ast.AssignStmt); !isAs {
+								break
+							}
+						}
+					}
+				}
+				recvs = append(recvs, struct {
+					tm   types.Object
+					expr ast.Expr
+					cc   *ast.CommClause
+				}{tm, e, cc})
+				return true
+			})
+			for _, rc := range recvs {
+				n++
+				key := name + ":timer" + itoa(n)
+				// where the receive is evaluated
+				var evalPts []Pt
+				for _, pt := range fl.Points() {
+					if pt.Node() != nil && within(pt.Node(), rc.expr) {
+						evalPts = append(evalPts, pt)
+					}
+				}
+				if len(evalPts) == 0 {
+					continue
+				}
+				from := evalPts
+				if rc.cc != nil {
+					from = nil
+					for _, b := range fl.G.Blocks {
+						if b.Kind == kindSelectCaseBody && b.Stmt == ast.Stmt(rc.cc) {
+							from = append(from, Pt{b, 0})
+						}
+					}
+					if len(from) == 0 {
+						continue
+					}
+				}
+				rearmed := func(q Pt) bool {
+					if q.Node() == nil {
+						return false
+					}
+					if assignsObj(info, q.Node(), rc.tm) {
+						return true
+					}
+					for _, call := range callsAt(q.Node()) {
+						if methodName(call) == "Reset" && objOf(info, callRecv(call)) == rc.tm {
+							return true
+						}
+					}
+					return false
+				}
+				path, found := fl.Reach(Query{From: from, Inclusive: rc.cc != nil, Target: isPt(evalPts), Avoid: rearmed})
+				c.Hold("E16", key, rc.expr.Pos(), !found, "after the timer "+rc.tm.Name()+" has fired the loop comes back to wait on it again without a Reset ("+fl.Describe(path)+"): a time.Timer fires once – from the second way round the wait never ends and whatever the loop does periodically (the pool's sweep of idle connections, a refill, a retry) is done exactly once in the life of the process")
+			}
+		})
+	}
+}
